@@ -61,7 +61,7 @@ class Sched:
         w.wait = None
 
     # -- controller -----------------------------------------------------------------------------------------
-    def run(self, timeout=60):
+    def run(self, timeout=20):
         last = None
         while True:
             live = [w for w in self.workers.values() if not w.done]
